@@ -158,7 +158,7 @@ def check_C12(prop, tier, seed):
     rundir = os.path.join(vc.RUN, "C12-%s" % tier)
     shutil.rmtree(rundir, ignore_errors=True)
     os.makedirs(rundir)
-    ncases = 2500 if tier == "quick" else 12000
+    ncases = 8000 if tier == "quick" else 30000
     scale = 500 if tier == "quick" else 900
     g = subprocess.run([binaries[cfgs[0]], "gen", "C12", "--cases", str(ncases), "--scale", str(scale), "--seed",
                         str(vc.seed_for(seed, prop, "gen", 0))], stdout=subprocess.PIPE, stderr=subprocess.PIPE)
@@ -255,7 +255,7 @@ def check_C15(prop, tier, seed):
     binaries = vbuild.build(cfgs, headers)
     env = {"TSAN_OPTIONS": "halt_on_error=1:second_deadlock_stack=1:exitcode=66:report_signal_unsafe=0"}
     reg = vc.regression_tier(prop, binaries, cfgs[0], extra_env=env)
-    plan = dict(cfgs=cfgs, shards=15, cases=60 if tier == "quick" else 700, scale=220, maxsize=100)
+    plan = dict(cfgs=cfgs, shards=15, cases=1500 if tier == "quick" else 6000, scale=220, maxsize=100)
     merged = vc.generic_check(prop, tier, seed, plan, binaries, extra_env=env)
     rule = subprocess.run([binaries[cfgs[0]], "rule", prop], stdout=subprocess.PIPE).stdout.decode().strip()
     return vc.finish(prop, tier, seed, "exploration", merged, reg, rule, t0,
@@ -276,14 +276,14 @@ def check_C16(prop, tier, seed):
     binaries = vbuild.build(list(variants), headers)
     ompcfgs = ["r-omp", "r-omp-nosse", "r-omp-mid"]
     reg = vc.regression_tier(prop, binaries, "r-omp", extra_env={"OMP_NUM_THREADS": "4"})
-    plan = dict(cfgs=ompcfgs, shards=15, cases=26 if tier == "quick" else 300, scale=700 if tier == "quick" else 1400, maxsize=100,
+    plan = dict(cfgs=ompcfgs, shards=15, cases=100 if tier == "quick" else 800, scale=700 if tier == "quick" else 1400, maxsize=100,
                 env_by_shard=[{"OMP_MAX_ACTIVE_LEVELS": "1"}, {"OMP_MAX_ACTIVE_LEVELS": "2"}])
     merged = vc.generic_check(prop, tier, seed, plan, binaries, extra_env={"OMP_NUM_THREADS": "4"})
     # cross-build: the same case list in the sequential build gives the same digests
     rundir = os.path.join(vc.RUN, "C16-%s-x" % tier)
     shutil.rmtree(rundir, ignore_errors=True)
     os.makedirs(rundir)
-    n = 48 if tier == "quick" else 400
+    n = 160 if tier == "quick" else 1000
     g = subprocess.run([binaries["r-omp"], "gen", "C16", "--cases", str(n), "--scale", "700", "--seed",
                         str(vc.seed_for(seed, prop, "x", 0))], stdout=subprocess.PIPE, stderr=subprocess.PIPE)
     lines = [l for l in g.stdout.decode().splitlines() if l.startswith("prop=C16")]
@@ -309,7 +309,7 @@ def check_C16(prop, tier, seed):
     # Archer / ThreadSanitizer slice
     tsan_env = {"OMP_NUM_THREADS": "4", "OMP_TOOL_LIBRARIES": "/usr/lib/llvm-14/lib/libarcher.so",
                 "TSAN_OPTIONS": "ignore_noninstrumented_modules=1:halt_on_error=1:exitcode=66", "ARCHER_OPTIONS": "verbose=0"}
-    nts = 10 if tier == "quick" else 120
+    nts = 32 if tier == "quick" else 240
     tl = lines[:nts]
     rt, ct = run_exec(binaries["r-omp-tsan"], tl, rundir, "tsan", tsan_env, 5)
     for case, msg in ct:
